@@ -214,3 +214,39 @@ func verifAllASCII(s string) bool {
 	}
 	return r
 }
+
+// HarnessC17Routing: which validator a filter key gets. A symbolic pattern is
+// written under each of the six filter keys of push / pull_request /
+// workflow_run; the glob rule reports it iff the validator that belongs to the
+// key (Git ref syntax for branches / tags and their -ignore forms, path syntax
+// for paths / paths-ignore) rejects it.
+func HarnessC17Routing(L int) {
+	pat := verifSymString("pat", L)
+	keys := []string{"branches", "branches-ignore", "tags", "tags-ignore", "paths", "paths-ignore"}
+	k := verifChoose("key", len(keys))
+	hooks := []string{"push", "pull_request", "pull_request_target", "workflow_run"}
+	hook := hooks[verifChoose("hook", len(hooks))]
+	if hook == "workflow_run" && k >= 2 {
+		return // workflow_run has branches / branches-ignore only
+	}
+	s := yScalar
+	filter := ySeq(s(pat))
+	ev := yMap(s(keys[k]), filter)
+	if hook == "workflow_run" {
+		ev = yMap(s("workflows"), ySeq(s("w")), s(keys[k]), filter)
+	}
+	doc := yDoc(yMap(s("on"), yMap(s(hook), ev), s("jobs"), yMap(s("j"), yMap(s("runs-on"), s("ubuntu-latest"), s("steps"), ySeq(yMap(s("run"), s("echo")))))))
+	verifPlace(doc, 1, 0)
+	errs := verifLintNode(doc, []Rule{NewRuleGlob()})
+	var want []InvalidGlobPattern
+	if k < 4 {
+		want = ValidateRefGlob(pat)
+	} else {
+		want = ValidatePathGlob(pat)
+	}
+	verifReach("checked")
+	if len(want) > 0 {
+		verifReach("invalid")
+	}
+	verifCheckf(len(errs) == len(want), "filter-key-checked-with-the-wrong-syntax", keys[k])
+}
